@@ -4,7 +4,7 @@ import json, os, sys
 HERE = os.path.dirname(os.path.dirname(os.path.abspath(__file__)))
 
 CHECKS = {
- "C02": dict(technique="TLC product exploration: Glushkov position automaton of the generator's tree (Meaning.tla) x recorded raw/minimised DFA (Equiv.tla)",
+ "C02": dict(technique="TLC product exploration: Glushkov position automaton of the generator's tree (Meaning.tla) x recorded raw/minimised DFA (Equiv.tla); design level: Subset.tla over all pop orders of dfa_from_regex, and trace validation of its hook events plus the renumbered result of do_minimize against it (SubsetTrace.tla)",
              text="Complete labelled-language equivalence decision per grammar and shell (raw and minimised automaton, nested within-word automata through a flattened bracket encoding) for every normal-form tree up to a node bound plus random grammars; the oracle is the TLA+ meaning computed from the generator's tree, the implementation side is the automaton recorded from the real pipeline.",
              ref="7/C02", note="Bounded corpus (exhaustive <= 4/5 nodes + random); description distribution only in documented shapes; TLC and the recorder's projection of DFA structures are trusted."),
  "C03": dict(technique="TLC product exploration raw x minimised (Equiv.tla) + Nerode/trim evaluation on recorded automata (MinCheck.tla); design level: Hopcroft.tla over all schedules, and trace validation of the hook events of do_minimize against it (HopTrace.tla)",
